@@ -355,7 +355,7 @@ def r096(prog, chk):
             for c_ in A.calls_in(lp):
                 ts, how = prog.resolve_callee(m, c_.func)
                 if any(isinstance(t_, FuncInfo) and t_.module is m.module and t_.cls is None for t_ in ts) or (isinstance(c_.func, ast.Attribute) and c_.func.attr in ("decomposeAndRemove", "removeComponent")):
-                    extra = [g for g in may_conds(prog, m, c_) if g.kind in ("if", "boolop") and any(a is lp for a in ix.ancestors(g.test))
+                    extra = [g for g in may_conds(prog, m, c_) if g.kind in ("if", "boolop") and any(a is lp for a in ix.ancestors(g.loc))
                              and not (isinstance(g.test, ast.Compare) and len(g.test.ops) == 1 and isinstance(g.test.ops[0], (ast.Is, ast.IsNot, ast.In, ast.NotIn)))]
                     if extra:
                         okc = False
